@@ -3,16 +3,13 @@
    the match list used here is [matches_ok] (what [tgs_ok] checks / [tgs_sound] proves). *)
 From Coq Require Import List Bool Arith ZArith Lia Sorting.Sorted.
 From Coq.Strings Require Import Byte.
-From GI Require Import Lib.Bytes Gen.DiffConsts Diff.Diff Diff.DiffBase.
+From GI Require Import Lib.Bytes Gen.DiffConsts Diff.Diff Diff.DiffSpec Diff.DiffBase.
 Import ListNotations.
 
 (* the proofs of this file never look at the value of the context constant *)
 Local Opaque ctxC.
 
 (* ---------------------------------------------------------------- the relation hunks / texts *)
-
-(* printed start line of a range at 0-based position p with c lines *)
-Definition pos_of (p c : nat) : nat := if c =? 0 then p else S p.
 
 (* [hs] rewrites [xs] (the old lines from position px on) into [ys] (the new lines from py on):
    an unchanged gap [g], then the chunk, and so on; after the last hunk the rests are equal. *)
@@ -82,28 +79,6 @@ Proof.
 Qed.
 
 (* ---------------------------------------------------------------- well-formedness, by positions *)
-
-(* hunks in order from (px,py) on: each sits at a position (p,q) not before the end of the
-   previous one, the unchanged gap before it has the same length and the same lines on both
-   sides, its printed start lines follow the Go convention for (p,q), its counts are the numbers
-   of ' '/'-' resp. ' '/'+' lines of the body, and these lines are x[p:p+cx] resp. y[q:q+cy]
-   (so a context line equals the old line and the new line it stands for). *)
-Fixpoint wf_from (x y : list line) (px py : nat) (hs : list hunk) : Prop :=
-  match hs with
-  | [] => True
-  | h :: hs' =>
-      exists p q,
-        px <= p /\ py <= q /\ p - px = q - py /\
-        sub x px p = sub y py q /\
-        sx h = pos_of p (cx h) /\ sy h = pos_of q (cy h) /\
-        cx h = length (old_side (body h)) /\ cy h = length (new_side (body h)) /\
-        p + cx h <= length x /\ q + cy h <= length y /\
-        old_side (body h) = sub x p (p + cx h) /\
-        new_side (body h) = sub y q (q + cy h) /\
-        wf_from x y (p + cx h) (q + cy h) hs'
-  end.
-
-Definition hunks_wf (x y : list line) (hs : list hunk) : Prop := wf_from x y 0 0 hs.
 
 Lemma wf_from_rel x y hs : forall px py,
   px <= length x -> py <= length y ->
@@ -405,7 +380,7 @@ Proof.
       apply bind_ok_exists with
         (Q := fun rest => hunks_rel (stx + n) (sty + n) (skipn (stx + n) x) (skipn (sty + n) y) rest).
       * apply (Hnext (stx + n) (sty + n) 0 []).
-        repeat (split; [reflexivity || lia|]). split; [lia|].
+        split; [reflexivity|]. split; [reflexivity|]. split; [lia|]. split; [lia|]. split; [lia|].
         intro Hneof. apply Hn' in Hneof. lia.
       * intros rest Hrel. eexists. split; [reflexivity|]. simpl.
         exists (sub x e0x chx), (skipn (stx + n) x), (skipn (sty + n) y).
@@ -431,7 +406,7 @@ Proof.
         (Q := fun rest => hunks_rel e0x e0y (skipn e0x x) (skipn e0y y) rest).
       * (* the same ghost position: first move it to (stx, sty), where the gap ends *)
         destruct (Hnext stx sty (cntx + d1) ctext2) as (rest & Er & Hrel).
-        { repeat (split; [assumption || lia|]). split; [lia|].
+        { split; [assumption|]. split; [assumption|]. split; [lia|]. split; [lia|]. split; [lia|].
           intro Hneof. destruct Hbr as [Hbr | (Hc & _)]; [contradiction | lia]. }
         replace (cnty + d2) with (cntx + d1) by lia.
         exists rest. split; [exact Er|].
@@ -490,14 +465,12 @@ Proof.
   destruct (nth_error y (snd p)) as [b|] eqn:Eb; [|discriminate].
   apply andb_true_iff in H as [H H3]. apply andb_true_iff in H as [H1 H2].
   apply bytes_eqb_true_iff in H1. subst b. apply Nat.eqb_eq in H2, H3.
-  repeat split.
-  - apply nth_error_Some. congruence.
-  - apply nth_error_Some. congruence.
-  - congruence.
-  - intros i Hi. eapply count_line_unique; eauto.
+  split; [apply nth_error_Some; congruence|]. split; [apply nth_error_Some; congruence|].
+  split; [congruence|].
+  intros i Hi. exact (count_line_unique x a H2 i (fst p) Hi Ea).
 Qed.
 
-Lemma increasing_sorted x y (e : nat * nat) l :
+Lemma increasing_sorted (e : nat * nat) l :
   increasing l = true -> Forall (fun p => le2 p e) l -> StronglySorted le2 (l ++ [e]).
 Proof.
   induction l as [|p l IH]; intros Hi Hf; simpl.
